@@ -68,6 +68,9 @@ func profiles() map[string]world.Profile {
 			Weights: map[string]int{"AddFact": 40, "RemFact": 12, "GetFact": 6, "SearchFacts": 4}},
 		"expfan": {Name: "expfan", Len: 26, Locs: []string{"A"}, Ids: []string{"f1", "f2", "f3", "f4", "f5", "f6"}, MaxFacts: 1000, Cascade: true, Fan: true, Expiry: true,
 			Weights: map[string]int{"AddFact": 45, "GetFact": 10, "SearchFacts": 6, "RemFact": 3, "Sleep": 3, "SleepReload": 10}},
+		"guardinh": {Name: "guardinh", Len: 45, Locs: []string{"A", "B"}, Ids: []string{"f1", "f2", "r1"}, Rules: true, Keys: true, Parents: true, MaxFacts: 1000,
+			// inherited reads at a child whose parent is protected or disabled, by callers with and without keys
+			Weights: map[string]int{"AddFact": 14, "AddRule": 6, "SetKey": 18, "SearchFacts": 24, "SearchRules": 5, "ListRules": 6, "ProcessEvent": 8, "SetParents": 5, "GetFact": 4}},
 		"capacity":     {Name: "capacity", Len: 40, Locs: []string{"A"}, Ids: []string{"f1", "f2", "f3", "f4", "f5"}, Rules: true, MaxFacts: 3, Weights: capacity},
 		"lifecycle":    {Name: "lifecycle", Len: 45, Locs: []string{"A", "B"}, Ids: []string{"r1", "r2"}, Rules: true, Parents: true, Scheduled: true, MaxFacts: 1000, Weights: lifecycle},
 		"dispatch":     {Name: "dispatch", Len: 40, Locs: []string{"A", "B"}, Ids: []string{"r1", "r2", "r3", "f1", "f2"}, Rules: true, Dispatch: true, Parents: true, MaxFacts: 1000, Weights: dispatch},
@@ -176,6 +179,9 @@ func main() {
 					if err != nil {
 						fmt.Fprintln(os.Stderr, "world:", err)
 						os.Exit(2)
+					}
+					if p.Name == "guardinh" {
+						w.Do(world.Op{Op: "SetParents", Loc: "A", Names: []string{"B"}})
 					}
 					if p.Parents && len(p.Locs) >= 3 && *via == "" && g.R.Intn(2) == 0 {
 						// start from a hierarchy in which one ancestor is reachable over two routes (no loop, no forest)
